@@ -174,8 +174,14 @@ def _ptag(cls, args):
     return "p=0" if p == 0.0 else ("p=1" if p == 1.0 else "interior")
 
 
-def _mk(cls, stream, args):
+class _F(float):
+    """a float subclass (numpy.float64 is one): still a float inside the documented domain"""
+
+
+def _mk(cls, stream, args, wrap=False):
     from pydsol.core import distributions as D
+    if wrap:
+        args = [_F(a) if type(a) is float and a == a and abs(a) != math.inf else a for a in args]
     return getattr(D, cls)(stream, *args)
 
 
@@ -237,6 +243,19 @@ def run_case(case, ctx):
     except Exception as e:
         ctx.viol(f"density-raises-at-draw:{cls}:{type(e).__name__}", {**info, "exc": repr(e)})
         return
+    # ---- the same parameters as float-subclass instances: accepted, identical draws
+    if seed % 3 == 0 and any(type(a) is float for a in args):
+        try:
+            dw = _mk(cls, CountingStream(seed), args, wrap=True)
+            for k in range(20):
+                v = dw.draw()
+                if fx(v) != base[k]:
+                    ctx.viol(f"float-subclass-parameters-change-draws:{cls}", {**info, "draw_index": k})
+                    return
+            ctx.count("float_subclass_parameter_sets")
+        except Exception as e:
+            ctx.viol(f"in-domain-rejected:{cls}:float-subclass:{type(e).__name__}", {**info, "exc": repr(e)})
+            return
     # ---- twin + interleaved instance
     sa, sb, sc = CountingStream(seed), CountingStream(seed), CountingStream(seed)
     da, db, dc = _mk(cls, sa, args), _mk(cls, sb, args), _mk(cls, sc, args)
